@@ -9,7 +9,7 @@
    TopoFinish / TopoDup. *)
 From stdpp Require Import gmap strings.
 Require Import Grits.Base Grits.ModeDefs Grits.Modes Grits.STypes Grits.Forms Grits.Subst Grits.TcDeps Grits.Expand
-               Grits.Runtime Grits.RuntimeFootprint Grits.spec.RtTyping Grits.spec.Topo.
+               Grits.Runtime Grits.RuntimeFootprint Grits.spec.RtTyping Grits.spec.Topo Grits.spec.Linear.
 Require Import Grits.proofs.RtSubst Grits.proofs.StepErrors Grits.proofs.RtSafety Grits.proofs.TopoLin
                Grits.proofs.RuntimeFacts Grits.proofs.TopoStep Grits.proofs.TopoStepExt Grits.proofs.TopoFinish
                Grits.proofs.DupSubst Grits.proofs.LinChan Grits.proofs.TopoDup.
@@ -108,7 +108,7 @@ Qed.
 
 Definition DropUnref (c : config) : Prop :=
   forall p pp, procs c !! p = Some pp -> is_dfwd (pr_body0 pp) = true ->
-  forall j o, j ∈ cids_of (pr_provs pp) -> obj_in c o -> j ∉ refs o.
+  length (pr_provs pp) = 1%nat /\ forall j o, j ∈ cids_of (pr_provs pp) -> obj_in c o -> j ∉ refs o.
 Definition NoFd (c : config) : Prop := forall p pp, procs c !! p = Some pp -> nofd_top (pr_body0 pp) = true.
 Definition ProvsOk (c : config) : Prop :=
   (forall p pp, procs c !! p = Some pp -> NoDup (cids_of (pr_provs pp))) /\
@@ -126,15 +126,16 @@ Hypothesis HFn : nofd_funs F.
 Lemma dropunref_step Δ c c' :
   cfg_typed D F teq Δ c -> DropUnref c -> RM Δ c c' ->
   (forall q v, procs c' !! q = Some v -> is_dfwd (pr_body0 v) = true ->
-     procs c !! q = Some v \/ forall j o', j ∈ cids_of (pr_provs v) -> obj_in c' o' -> j ∉ refs o') ->
+     procs c !! q = Some v \/ (length (pr_provs v) = 1%nat /\ forall j o', j ∈ cids_of (pr_provs v) -> obj_in c' o' -> j ∉ refs o')) ->
   DropUnref c'.
 Proof.
-  intros Hc Hd Hrm Hnew q v Hq Hdf j o' Hj Ho' Hjr. destruct (Hnew q v Hq Hdf) as [Hold|Hfresh]; [|exact (Hfresh j o' Hj Ho' Hjr)].
+  intros Hc Hd Hrm Hnew q v Hq Hdf. destruct (Hnew q v Hq Hdf) as [Hold|Hfresh]; [|exact Hfresh].
+  split; [by destruct (Hd q v Hold Hdf)|]. intros j o' Hj Ho' Hjr.
   destruct (ct_procs D F teq Δ c Hc q v Hold) as (s & rs & _ & Hprovs & _). rewrite Forall_forall in Hprovs.
   assert (HΔ : is_Some (Δ !! j)).
   { unfold cids_of in Hj. apply elem_In, in_flat_map in Hj as (n & Hn & Hjn). destruct (Hprovs n Hn) as (c0 & t' & Hc0 & Ht' & _).
     rewrite Hc0 in Hjn. destruct Hjn as [<-|[]]. eauto. }
-  destruct (Hrm o' j Ho' Hjr HΔ) as (o & Ho & Hjo). exact (Hd q v Hold Hdf j o Hj Ho Hjo).
+  destruct (Hrm o' j Ho' Hjr HΔ) as (o & Ho & Hjo). destruct (Hd q v Hold Hdf) as [_ H]. exact (H j o Hj Ho Hjo).
 Qed.
 
 (* everything but Topo, for a step that applies an effect: the continuation and the spawned processes
@@ -156,7 +157,7 @@ Lemma rest_of_effect Δ c c0 p pp e (R : cid -> Prop) :
      affr None (sp_body s) /\ NoDup (cids_of (sp_provs s)) /\
      (forall j, j ∈ form_chans (sp_body s) -> R j \/ Δ !! j = None) /\
      (nofd (sp_body s) = true \/
-      (is_dfwd (sp_body s) = true /\ (forall j, j ∈ cids_of (sp_provs s) -> Δ !! j = None) /\ old_only Δ e))) ->
+      (is_dfwd (sp_body s) = true /\ length (sp_provs s) = 1%nat /\ (forall j, j ∈ cids_of (sp_provs s) -> Δ !! j = None) /\ old_only Δ e))) ->
   let c' := apply_effect c0 p pp e in
   LinCfg c' /\ ProvsOk c' /\ DropUnref c' /\ NoFd c'.
 Proof.
@@ -184,8 +185,8 @@ Proof.
   - apply (dropunref_step Δ c c' Hc Hd Hrm). intros q v Hq Hdf.
     pose proof (apply_effect_objs c0 p pp e (OProc q v) Hq) as [(-> & pp1 & Ea & _ & Hb)|[(s & n & Hs & -> & ->)|[_ Ho]]].
     + exfalso. rewrite Hb in Hdf. destruct (Hcont pp1 Ea) as (_ & _ & Hn & _). rewrite (nofd_not_dfwd _ Hn) in Hdf. discriminate.
-    + right. cbn in Hdf. destruct (Hsp s Hs) as (_ & _ & _ & [Hn|(_ & Hfr & Hold1 & Hold2)]); [rewrite (nofd_not_dfwd _ Hn) in Hdf; discriminate|].
-      intros j o' Hj Ho' Hjr. cbn in Hj. specialize (Hfr j Hj).
+    + right. cbn in Hdf. destruct (Hsp s Hs) as (_ & _ & _ & [Hn|(_ & Hlen & Hfr & Hold1 & Hold2)]); [rewrite (nofd_not_dfwd _ Hn) in Hdf; discriminate|].
+      split; [exact Hlen|]. intros j o' Hj Ho' Hjr. cbn in Hj. specialize (Hfr j Hj).
       apply apply_effect_objs in Ho'. destruct o' as [q' v'|k' m'].
       * destruct Ho' as [(-> & pp1 & Ea & _ & Hb)|[(s' & n' & Hs' & -> & ->)|[_ Ho]]].
         -- cbn in Hjr. rewrite Hb in Hjr. destruct (Hold1 pp1 Ea j Hjr) as [? E]. congruence.
@@ -199,6 +200,489 @@ Proof.
     + exact (Hnf q v (Hsubp q v Ho)).
 Qed.
 
+Lemma affr_fwd_leaf a b d : chan a = None -> is_self a = true -> affr None (FFwd a b d).
+Proof.
+  intros Hc Hs. split; [|exact I]. simpl. constructor; [|constructor].
+  unfold uname at 1. rewrite Hc. unfold prov_ref. rewrite Hs. simpl.
+  unfold uname. destruct (chan b); [repeat constructor; simpl; tauto|]. destruct (prov_ref None b); repeat constructor; simpl; tauto.
+Qed.
+
+Definition Rest (c' : config) : Prop := Topo c' /\ LinCfg c' /\ ProvsOk c' /\ DropUnref c' /\ NoFd c'.
+
+Lemma step_internal c p pp e : procs c !! p = Some pp -> action_of Async D pp = AInternal ->
+  internal_effect Async F p pp = EOk e -> step Async D F c (Run p) = SStep (apply_effect c p pp e).
+Proof. intros Hp Ea He. cbn [step]. rewrite Hp, Ea, He. reflexivity. Qed.
+
+Lemma invx_internal Δ c p pp e :
+  cfg_typed D F teq Δ c -> Topo c -> LinCfg c -> ns_ok c -> ProvsOk c -> DropUnref c -> NoFd c ->
+  procs c !! p = Some pp -> action_of Async D pp = AInternal -> internal_effect Async F p pp = EOk e ->
+  Rest (apply_effect c p pp e).
+Proof.
+  intros Hc Ht Hl Hns Hpv Hd Hnf Hp Ea He.
+  pose proof (step_internal c p pp e Hp Ea He) as Hstep.
+  destruct (ct_procs D F teq Δ c Hc p pp Hp) as (s & rs & Hne & Hprovs & Hty).
+  assert (Hm : multi pp = false).
+  { destruct (multi pp) eqn:E; [|done]. exfalso. pose proof (action_internal_form _ _ _ Ea) as Hf. unfold action_of in Ea.
+    destruct (pr_body0 pp); try done; simpl in Ea;
+      repeat match type of Ea with (if ?b then _ else _) = _ => destruct b end; unfold internal in Ea; rewrite ?E in Ea; discriminate. }
+  destruct (single_provs pp Hne Hm) as [n0 Hn0].
+  pose proof (lc_procs c Hl p pp Hp) as Hlinp. pose proof (Hnf p pp Hp) as Hnfp. pose proof (proj1 Hpv p pp Hp) as Hndp.
+  pose proof (action_internal_form _ _ _ Ea) as Hform.
+  destruct pp as [provs body nx]. cbn [pr_body0 pr_provs pr_next] in *. subst provs.
+  assert (Hsame : forall o, obj_in c o -> obj_in c o) by auto.
+  assert (Hsamep : forall q v, procs c !! q = Some v -> procs c !! q = Some v) by auto.
+  assert (HR : forall j, j ∈ form_chans body -> exists o, obj_in c o /\ j ∈ refs o).
+  { intros j Hj. exists (OProc p (Proc [n0] body nx)). split; [exact Hp|exact Hj]. }
+  assert (HkΔ : forall a, (nx <= a)%nat -> Δ !! (p ++ [a]) = None).
+  { intros a Ha. apply (ct_fresh D F teq Δ c Hc p _ a [] Hp). cbn. lia. }
+  unfold internal_effect in He. cbn [pr_body0] in He.
+  destruct body as [| | | |x b k0| | | |x y fr k0|fn args pt| | |cl k0|l k0]; try done.
+  - (* cut *)
+    unfold fresh_chan in He. cbn [pr_next pr_provs pr_body0 cids_of flat_map chan app] in He. injection He as <-.
+    set (kn := p ++ [nx]). set (cn := mkName (ident x) false (pol x) (nty x) (Some kn)).
+    inversion Hty as [| | | | | | | |? ? ? ? x' b' k' A Hbx Hsx Hb Hk0| | | | | | | | | | |]; subst.
+    destruct (fresh_facts D F teq Δ c p n0 _ nx Hc Hns Hp) as [Hfr Hkp].
+    destruct (Hfr nx (le_n _)) as (HkΔn & Hkc & _ & Hfro). destruct (Hfr (S nx + 1)%nat ltac:(lia)) as (_ & _ & Hchild & _).
+    simpl in Hlinp. destruct Hlinp as (Hpaths & Hlb & Hlk).
+    unfold nofd_top in Hnfp. simpl in Hnfp. apply andb_true_iff in Hnfp as [Hnb Hnk].
+    assert (Hkn0 : ~ In kn (form_chans k0)).
+    { intros Hin. apply (proj1 (eq_None_not_Some _) HkΔn). exact (form_chans_typed D F teq Δ _ _ _ _ _ kn Hk0 Hin). }
+    assert (Hpb : forall i, i ∈ form_chans (subst x cn k0) -> i ∈ form_chans (FNew x b k0) \/ i = kn).
+    { intros i Hi. apply elem_In in Hi. apply form_chans_subst in Hi as [Hi|Hi].
+      - left. apply elem_In. simpl. apply in_app_iff. by right.
+      - right. cbn in Hi. by destruct Hi as [<-|[]]. }
+    split.
+    + unfold set_body. cbn [pr_provs pr_body0 pr_next]. rewrite apply_spawn_effect. cbn [length].
+      apply (topo_spawn c p (Proc [n0] (FNew x b k0) nx) [kn] [cn] (p ++ [(S nx + 1)%nat]) b (subst x cn k0)); try done.
+      * intros k1 Hk1. apply elem_of_list_singleton in Hk1 as ->. exact Hkc.
+      * apply child_ne.
+      * intros k1 o Hk1 Ho. apply elem_of_list_singleton in Hk1 as ->. by apply Hfro.
+      * intros i Hi. apply elem_In. simpl. apply in_app_iff. left. by apply elem_In.
+      * intros i Hi. destruct (Hpb i Hi) as [H| ->]; [by left|right; set_solver].
+      * intros i Hib Hip. apply elem_In in Hib. destruct (Hpb i Hip) as [Hi| ->].
+        -- apply elem_In in Hip. apply form_chans_subst in Hip as [Hip|Hip].
+           ++ rewrite Forall_forall in Hpaths.
+              destruct (proj1 chans_path_mut b None i Hib) as (pb1 & Hpb1 & Hk1).
+              destruct (proj1 chans_path_mut k0 None i Hip) as (pk1 & Hpk1 & Hk2).
+              eapply (dup_app pb1 (rmv [x] pk1)); [apply Hpaths, in_crossk; exists pb1, (rmv [x] pk1); split; [done|split; [apply in_map_iff; eauto|done]]|exact Hk1|by apply rmv_chan].
+           ++ cbn in Hip. destruct Hip as [<-|[]]. apply (proj1 (eq_None_not_Some _) HkΔn). exact (form_chans_typed D F teq Δ _ _ _ _ _ kn Hb Hib).
+        -- apply (proj1 (eq_None_not_Some _) HkΔn). exact (form_chans_typed D F teq Δ _ _ _ _ _ kn Hb Hib).
+    + apply (rest_of_effect Δ c c p _ _ (fun j => j ∈ form_chans (FNew x b k0))); auto.
+      * intros pp1 [= <-]. cbn. split.
+        { apply (affr_subst D F teq Hteq Δ ∅ None (rs ∖ {[ident x]}) s k0 x cn kn A (proj1 Hbx) eq_refl);
+            [discriminate|set_solver|exact Hk0|exact Hkn0|exact Hlk]. }
+        split; [exact Hndp|]. split; [by rewrite nofd_subst|].
+        intros j Hj. destruct (Hpb j Hj) as [H| ->]; [by left|right; exact HkΔn].
+      * intros s0 [<-|[]]. cbn [sp_body sp_provs]. split; [exact Hlb|]. split; [cbn; repeat constructor; simpl; tauto|].
+        split; [|by left]. intros j Hj. left. simpl. set_solver.
+  - (* split *)
+    unfold fresh_chan in He. cbn [pr_next pr_provs pr_body0 chan] in He. injection He as <-.
+    set (k1 := p ++ [nx]). set (k2 := p ++ [S nx]).
+    set (c1 := mkName (ident x) false (pol fr) (nty fr) (Some k1)). set (c2 := mkName (ident y) false (pol fr) (nty fr) (Some k2)).
+    inversion Hty as [| | | | | | | | | | | | | | | | | | ? ? ? ? x' y' fr' k' T Hcl Hbx Hby Hxy Hsx Hsy Hk0|]; subst.
+    destruct Hcl as (Hself & _ & Hch). destruct (chan fr) as [kfr|] eqn:Efr; [|destruct Hch as [_ (t' & H0 & _)]; by rewrite lookup_empty in H0].
+    destruct Hch as (t' & HΔfr & _).
+    pose proof (HkΔ nx (le_n _)) as HkΔ1. pose proof (HkΔ (S nx) ltac:(lia)) as HkΔ2. fold k1 in HkΔ1. fold k2 in HkΔ2.
+    simpl in Hlinp. destruct Hlinp as (Hpaths & Hlk). unfold nofd_top in Hnfp. simpl in Hnfp.
+    assert (Hk10 : ~ In k1 (form_chans k0)).
+    { intros Hin. apply (proj1 (eq_None_not_Some _) HkΔ1). exact (form_chans_typed D F teq Δ _ _ _ _ _ k1 Hk0 Hin). }
+    assert (Hk20 : ~ In k2 (form_chans k0)).
+    { intros Hin. apply (proj1 (eq_None_not_Some _) HkΔ2). exact (form_chans_typed D F teq Δ _ _ _ _ _ k2 Hk0 Hin). }
+    assert (Hk12 : k1 <> k2) by (unfold k1, k2; intros E; apply app_inv_head in E; injection E as E; lia).
+    assert (Hpb : forall i, i ∈ form_chans (subst y c2 (subst x c1 k0)) -> i ∈ form_chans k0 \/ i = k1 \/ i = k2).
+    { intros i Hi. apply elem_In in Hi. apply form_chans_subst in Hi as [Hi|Hi].
+      - apply form_chans_subst in Hi as [Hi|Hi]; [left; by apply elem_In|]. right. left. cbn in Hi. by destruct Hi as [<-|[]].
+      - right. right. cbn in Hi. by destruct Hi as [<-|[]]. }
+    split.
+    + eapply (topo_split_step D F teq Hteq Δ c p n0 x y fr k0 nx Async); eauto.
+    + apply (rest_of_effect Δ c c p _ _ (fun j => j ∈ form_chans (FSplit x y fr k0))); auto.
+      * intros pp1 [= <-]. cbn. split.
+        { set (Δ2 := <[k1 := T]> Δ).
+          assert (Hsub2 : Δ ⊆ Δ2) by (by apply insert_subseteq).
+          assert (Hk0' : typed D F teq Δ2 (<[ident x := T]> (<[ident y := T]> ∅)) None (rs ∖ {[ident x]} ∖ {[ident y]}) s k0).
+          { rewrite insert_commute by done. eapply typed_weaken; eauto. }
+          assert (Hf1 : typed D F teq Δ2 (<[ident y := T]> ∅) None (rs ∖ {[ident x]} ∖ {[ident y]}) s (subst x c1 k0)).
+          { eapply (typed_subst D F teq Hteq Δ2 _ None _ s k0 x c1 T); [apply Hbx| |discriminate|set_solver|exact Hk0'].
+            split; [done|]. exists k1, T. split; [done|]. split; [unfold Δ2; apply lookup_insert|apply (teq_refl _ _ Hteq)]. }
+          apply (affr_subst D F teq Hteq Δ2 ∅ None (rs ∖ {[ident x]} ∖ {[ident y]}) s (subst x c1 k0) y c2 k2 T (proj1 Hby) eq_refl);
+            [discriminate|set_solver|exact Hf1| |].
+          - intros Hin. apply form_chans_subst in Hin as [Hin|Hin]; [contradiction|]. cbn in Hin. destruct Hin as [E|[]]. congruence.
+          - apply (affr_subst D F teq Hteq Δ2 (<[ident y := T]> ∅) None (rs ∖ {[ident x]} ∖ {[ident y]}) s k0 x c1 k1 T (proj1 Hbx) eq_refl);
+              [discriminate|set_solver|exact Hk0'|exact Hk10|exact Hlk]. }
+        split; [exact Hndp|]. split; [by rewrite !nofd_subst|].
+        intros j Hj. destruct (Hpb j Hj) as [H|[-> | ->]]; [left; simpl; set_solver|by right|by right].
+      * intros s0 [<-|[]]. cbn [sp_body sp_provs]. split; [by apply affr_fwd_leaf|]. split.
+        { cbn. repeat constructor; simpl; [intros [E|[]]; congruence|tauto]. }
+        split; [|by left]. intros j Hj. left. simpl in Hj |- *. unfold name_chans in Hj at 1. simpl in Hj. set_solver.
+  - (* call *)
+    destruct (call_body F fn args) as [b|] eqn:Ecb; [|done]. injection He as <-.
+    destruct (call_affr D F teq Hteq HF Δ rs s fn args pt b Hty HFa Hlinp Ecb) as [Hab Hcb]. split.
+    + unfold no_eff. rewrite apply_cont_effect. cbn [pr_provs pr_body0 set_body rev map app].
+      apply (topo_cont c p (Proc [n0] (FCall fn args pt) nx)); try done. intros i Hi. apply elem_In. apply Hcb. by apply elem_In.
+    + apply (rest_of_effect Δ c c p _ _ (fun j => j ∈ form_chans (FCall fn args pt))); auto.
+      * intros pp1 [= <-]. cbn. split; [exact Hab|]. split; [exact Hndp|]. split; [eapply nofd_call_body; eauto|].
+        intros j Hj. left. apply elem_In. apply Hcb. by apply elem_In.
+      * intros s0 [].
+  - (* drop *)
+    unfold droppable_fwd, fresh_chan in He. cbn [pr_next pr_provs pr_body0 chan] in He. injection He as <-. split.
+    + eapply (topo_drop_step D F teq Hteq Δ c p n0 cl k0 nx Async); eauto. by apply affr_aff.
+    + inversion Hty as [| | | | | | | | | | | | ? ? ? ? c0 k' T Hcl Hk0| | | | | | |]; subst.
+      destruct Hcl as (Hself & _ & Hch). destruct (chan cl) as [kcl|] eqn:Ecl; [|destruct Hch as [_ (t' & H0 & _)]; by rewrite lookup_empty in H0].
+      destruct Hch as (t' & HΔcl & _).
+      apply (rest_of_effect Δ c c p _ _ (fun j => j ∈ form_chans (FDrop cl k0))); auto.
+      * intros pp1 [= <-]. cbn. split; [simpl in Hlinp; tauto|]. split; [exact Hndp|]. split; [exact Hnfp|].
+        intros j Hj. left. simpl. set_solver.
+      * intros s0 [<-|[]]. cbn [sp_body sp_provs]. split; [by apply affr_fwd_leaf|]. split; [cbn; repeat constructor; simpl; tauto|].
+        assert (Hfw : forall j, j ∈ form_chans (FFwd (mkName (ident cl) true (pol cl) (nty cl) None) cl true) -> j = kcl).
+        { intros j. simpl. unfold name_chans. simpl. rewrite Ecl. set_solver. }
+        split; [intros j Hj; left; apply Hfw in Hj as ->; simpl; unfold name_chans; rewrite Ecl; set_solver|].
+        right. split; [done|]. split; [done|]. split.
+        -- intros j Hj. cbn in Hj. apply elem_of_list_singleton in Hj as ->. apply HkΔ. lia.
+        -- split.
+           ++ intros pp1 [= <-] i Hi. cbn in Hi. apply elem_In in Hi. exact (form_chans_typed D F teq Δ _ _ _ _ _ i Hk0 Hi).
+           ++ intros s1 [<-|[]] i Hi. cbn [sp_body] in Hi. apply Hfw in Hi as ->. eauto.
+  - (* print *)
+    injection He as <-. split.
+    + rewrite apply_cont_effect. cbn [pr_provs pr_body0 set_body]. apply (topo_cont c p (Proc [n0] (FPrint l k0) nx)); done.
+    + apply (rest_of_effect Δ c c p _ _ (fun j => j ∈ form_chans (FPrint l k0))); auto.
+      * intros pp1 [= <-]. cbn. split; [simpl in Hlinp; tauto|]. split; [exact Hndp|]. split; [exact Hnfp|]. intros j Hj. by left.
+      * intros s0 [].
+Qed.
+
+(* ------------------------------------------------------------------ DUP *)
+Lemma drow_nth p pp f fn i : (i < length (pr_provs pp))%nat ->
+  nth_error (drow p pp f fn) i = Some (mkName (ident fn) false (pol fn) (nty fn) (Some (dkn p pp f i))).
+Proof.
+  intros Hi. unfold drow. rewrite nth_error_map. rewrite (nth_error_nth' _ 0%nat) by (by rewrite seq_length).
+  rewrite seq_nth by done. reflexivity.
+Qed.
+
+Lemma colchans_rows p pp i : (i < length (pr_provs pp))%nat -> forall (l : list name) k,
+  colchans (imap (fun f => drow p pp (k + f)) l) i = map (fun f => dkn p pp f i) (seq k (length l)).
+Proof.
+  intros Hi. induction l as [|a l IH]; intros k; [reflexivity|]. rewrite imap_cons. unfold colchans. cbn [flat_map length seq map].
+  rewrite Nat.add_0_r, (drow_nth p pp k a i Hi). cbn [name_chans chan app]. f_equal.
+  rewrite <- (IH (S k)). unfold colchans. f_equal. apply imap_ext. intros f x _. cbn. f_equal. lia.
+Qed.
+
+Lemma in_dss p pp fns cb s0 : In s0 (dss p pp fns cb) ->
+  (exists i pr, pr_provs pp !! i = Some pr /\ s0 = Spawn [pr] (cb i)) \/
+  (exists f fn, fns !! f = Some fn /\ s0 = Spawn (drow p pp f fn) (dfw fn)).
+Proof.
+  unfold dss. rewrite in_app_iff. intros [H|H]; apply elem_In, elem_of_lookup_imap in H as (i & x & -> & Hx); eauto.
+Qed.
+
+Lemma step_dup c p pp e : procs c !! p = Some pp -> action_of Async D pp = ADup ->
+  dup_effect p pp = EOk e -> step Async D F c (Run p) = SStep (apply_effect c p pp e).
+Proof. intros Hp Ea He. cbn [step]. rewrite Hp, Ea, He. reflexivity. Qed.
+
+Lemma invx_dup Δ c p pp e :
+  cfg_typed D F teq Δ c -> Topo c -> LinCfg c -> ns_ok c -> ProvsOk c -> DropUnref c -> NoFd c ->
+  procs c !! p = Some pp -> action_of Async D pp = ADup -> dup_effect p pp = EOk e ->
+  Rest (apply_effect c p pp e).
+Proof.
+  intros Hc Ht Hl Hns Hpv Hd Hnf Hp Ea He.
+  pose proof (step_dup c p pp e Hp Ea He) as Hstep.
+  destruct (ct_procs D F teq Δ c Hc p pp Hp) as (s & rs & Hne & Hprovs & Hty).
+  pose proof (lc_procs c Hl p pp Hp) as Hlinp. pose proof (Hnf p pp Hp) as Hnfp. pose proof (proj1 Hpv p pp Hp) as Hndp.
+  assert (Hmulti : (1 < length (pr_provs pp))%nat) by (apply action_dup_multi in Ea; unfold multi in Ea; by apply Nat.ltb_lt in Ea).
+  assert (Hn1 : length (pr_provs pp) <> 1%nat) by lia.
+  assert (Hnofd : nofd (pr_body0 pp) = true).
+  { unfold nofd_top in Hnfp. apply orb_true_iff in Hnfp as [Hdf|H]; [|done]. destruct (Hd p pp Hp Hdf) as [H1 _]. lia. }
+  assert (Hwfn : wfn (pr_body0 pp) = true) by (eapply typed_wfn; eauto).
+  assert (HkΔ : forall a, (pr_next pp <= a)%nat -> Δ !! (p ++ [a]) = None).
+  { intros a Ha. apply (ct_fresh D F teq Δ c Hc p _ a [] Hp). lia. }
+  assert (Hdkn : forall f i, Δ !! dkn p pp f i = None) by (intros f i; unfold dkn; apply HkΔ; lia).
+  split; [eapply (topo_dup_step D F teq Δ c p pp Async); eauto|].
+  rewrite (dup_effect_eq p pp Hn1) in He. injection He as <-.
+  set (fns := free_names (pr_body0 pp)). set (rows := imap (drow p pp) fns).
+  assert (Hfns : Forall (fun fn => is_Some (chan fn)) fns).
+  { rewrite Forall_forall. intros fn Hfn. destruct (free_names_closed D F teq Δ rs s _ fn Hty Hfn) as [t Ht'].
+    destruct (chan_ty_chan _ _ _ _ Ht') as (kc & Hkc & _). eauto. }
+  apply (rest_of_effect Δ c c p _ _ (fun j => j ∈ form_chans (pr_body0 pp))); auto.
+  - intros j Hj. exists (OProc p pp). split; [exact Hp|exact Hj].
+  - intros pp1 E. discriminate.
+  - intros s0 Hs0. cbn [e_spawn] in Hs0. apply in_dss in Hs0 as [(i & pr & Hpr & ->)|(f & fn & Hfn & ->)]; cbn [sp_body sp_provs].
+    + pose proof (lookup_lt_Some _ _ _ Hpr) as Hi.
+      assert (Hrows : Forall (fun row => exists c0, nth_error row i = Some c0 /\ is_self c0 = false /\ is_Some (chan c0)) rows).
+      { rewrite Forall_forall. intros row Hrow. apply elem_In, elem_of_lookup_imap in Hrow as (f & fn & -> & _).
+        rewrite (drow_nth p pp f fn i Hi). eexists. split; [reflexivity|]. split; [done|]. cbn. eauto. }
+      assert (Hcol : colchans rows i = map (fun f => dkn p pp f i) (seq 0 (length fns))) by (exact (colchans_rows p pp i Hi fns 0)).
+      destruct (affr_subst_col fns rows (pr_body0 pp) i Hwfn Hlinp Hfns Hrows) as [Haff _].
+      { unfold rows. by rewrite imap_length. }
+      { rewrite Hcol. apply FinFun.Injective_map_NoDup; [|apply seq_NoDup]. intros f1 f2 E. by apply (dkn_inj p pp f1 i f2 i Hi Hi) in E as [-> _]. }
+      { intros k Hk Hkb. rewrite Hcol in Hk. apply in_map_iff in Hk as (f & <- & _).
+        apply (proj1 (eq_None_not_Some _) (Hdkn f i)). exact (form_chans_typed D F teq Δ _ _ _ _ _ _ Hty Hkb). }
+      split; [exact Haff|]. split.
+      { cbn. destruct (chan pr); repeat constructor; simpl; tauto. }
+      split.
+      { intros j Hj. right. apply elem_In in Hj.
+        destruct (subst_col_fresh rows (pr_body0 pp) i j Hwfn) as (f & row & c0 & Hrow & Hc0 & Hjc); try done.
+        - rewrite Forall_forall in Hrows |- *. intros row Hrow. destruct (Hrows row Hrow) as (c0 & H1 & H2 & _). eauto.
+        - unfold rows. by rewrite imap_length.
+        - unfold rows in Hrow. rewrite list_lookup_imap in Hrow. destruct (fns !! f) as [fn|] eqn:Efn; [|discriminate]. injection Hrow as <-.
+          rewrite (drow_nth p pp f fn i Hi) in Hc0. injection Hc0 as <-. cbn in Hjc. destruct Hjc as [<-|[]]. apply Hdkn. }
+      left. by rewrite nofd_subst_col.
+    + split; [by apply affr_fwd_leaf|]. split.
+      { rewrite cids_drow. apply FinFun.Injective_map_NoDup; [|apply seq_NoDup]. intros i1 i2 E. unfold dkn in E. apply app_inv_head in E. injection E as E. lia. }
+      split; [|by left]. intros j Hj. left. simpl in Hj. unfold name_chans in Hj at 1. simpl in Hj.
+      apply elem_In. eapply free_names_chans; [apply elem_In; eapply elem_of_list_lookup_2; eauto|]. apply elem_In. set_solver.
+Qed.
+
+(* ------------------------------------------------------------------ send *)
+Lemma send_msg_facts pp k m : action_of Async D pp = ASend k m ->
+  (m_rule m = RGC -> is_dfwd (pr_body0 pp) = true) /\ (m_rule m = RFWD -> m_provs m = pr_provs pp).
+Proof.
+  intros Ha. unfold action_of in Ha.
+  destruct (pr_body0 pp) as [to pay cont|pay cont from k0|to l cont|from bs|x b k0|c0|c0 k0|to from d|x y from k0|fn args pt|to cont|x from k0|c0 k0|l k0] eqn:Eb;
+    simpl in Ha;
+    repeat match type of Ha with
+           | (if ?b then _ else _) = _ => destruct b eqn:?
+           | match ?x with _ => _ end = _ => destruct x eqn:?
+           end;
+    try discriminate;
+    try (unfold internal in Ha; destruct (multi pp); discriminate);
+    try (unfold recv_on in Ha; repeat match type of Ha with
+           | (if ?b then _ else _) = _ => destruct b
+           | match ?x with _ => _ end = _ => destruct x
+           end; discriminate);
+    try (unfold send_on in Ha; destruct (multi pp); [discriminate|];
+         repeat match type of Ha with match ?x with _ => _ end = _ => destruct x end; try discriminate;
+         injection Ha as <- <-; split; discriminate).
+  all: injection Ha as <- <-; destruct d; split; intros H; try discriminate; reflexivity.
+Qed.
+
+Lemma invx_send Δ c p pp k m st :
+  cfg_typed D F teq Δ c -> Topo c -> LinCfg c -> ns_ok c -> ProvsOk c -> DropUnref c -> NoFd c ->
+  procs c !! p = Some pp -> action_of Async D pp = ASend k m ->
+  chans c !! k = Some st -> ch_closed st = false -> ch_buf st = None ->
+  Rest (del_proc (put_msg c k st (Some m)) p).
+Proof.
+  intros Hc Ht Hl Hns Hpv Hd Hnf Hp Ea Hk Hcl Hb.
+  destruct (ct_procs D F teq Δ c Hc p pp Hp) as (s & rs & Hne & Hprovs & Hty).
+  destruct (send_msg_facts pp k m Ea) as [Hgc Hfw].
+  destruct (send_objs D pp k m Hne Ea) as (Hrefs & _).
+  set (c' := del_proc (put_msg c k st (Some m)) p).
+  destruct (topo_send_gc D c p pp k m st Ht Hl Hp Hne Ea) as [Ht' Hl']; try done.
+  { destruct (rule_eqb (m_rule m) RGC) eqn:E.
+    - apply rule_eqb_eq in E. right. intros j o2 Hj Ho2. destruct (Hd p pp Hp (Hgc E)) as [_ H]. by apply H.
+    - left. intros E'. rewrite E' in E. discriminate. }
+  assert (Hobj' : forall o', obj_in c' o' -> obj_in c o' \/ o' = OMsg k m).
+  { intros [r rr|k' m'] Ho'; unfold c', del_proc, put_msg in Ho'; cbn in Ho'.
+    - apply lookup_delete_Some in Ho' as [_ H]. by left.
+    - destruct Ho' as (st' & H & Hbuf). apply lookup_insert_Some in H as [[<- <-]|[Hne' H]].
+      + cbn in Hbuf. injection Hbuf as <-. by right.
+      + left. by exists st'. }
+  split; [exact Ht'|]. split; [exact Hl'|]. split; [|split].
+  - split.
+    + intros q v Hq. unfold c' in Hq. cbn in Hq. apply lookup_delete_Some in Hq as [_ Hq]. exact (proj1 Hpv q v Hq).
+    + intros k' st' m' Hk' Hb' Hr. unfold c' in Hk'. cbn in Hk'. apply lookup_insert_Some in Hk' as [[<- <-]|[_ Hk']].
+      * cbn in Hb'. injection Hb' as <-. rewrite (Hfw Hr). exact (proj1 Hpv p pp Hp).
+      * exact (proj2 Hpv k' st' m' Hk' Hb' Hr).
+  - apply (dropunref_step Δ c c' Hc Hd).
+    + intros o' j Ho' Hj _. destruct (Hobj' o' Ho') as [Ho| ->]; [eauto|]. exists (OProc p pp). split; [exact Hp|]. by apply Hrefs.
+    + intros q v Hq _. left. unfold c' in Hq. cbn in Hq. by apply lookup_delete_Some in Hq as [_ Hq].
+  - intros q v Hq. unfold c' in Hq. cbn in Hq. apply lookup_delete_Some in Hq as [_ Hq]. exact (Hnf q v Hq).
+Qed.
+
+(* ------------------------------------------------------------------ receive *)
+Lemma find_branch_chans l bs pay K j : find_branch l bs = Some (pay, K) -> In j (form_chans K) -> In j (brs_chans bs).
+Proof.
+  induction bs as [|l' p' k' r IH]; simpl; [discriminate|]. destruct (String.eqb l' l).
+  - intros [= -> ->] H. apply in_app_iff. by left.
+  - intros H H'. apply in_app_iff. right. auto.
+Qed.
+
+Lemma new_self_chans id : name_chans (new_self id) = [].
+Proof. reflexivity. Qed.
+
+Lemma on_message_facts p pp k m e :
+  on_message p pp m = EOk e -> m_rule m <> RGC -> is_dfwd (pr_body0 pp) = false ->
+  (is_fwd_body pp = true -> m_rule m <> RFWD) -> nofd (pr_body0 pp) = true ->
+  exists pp1 cl, e = Eff (Continue pp1) [] [] cl [] /\
+    (pr_provs pp1 = pr_provs pp \/ (m_rule m = RFWD /\ pr_provs pp1 = m_provs m) \/ (exists n, pr_provs pp1 = [n])) /\
+    nofd (pr_body0 pp1) = true /\
+    forall j, In j (form_chans (pr_body0 pp1)) -> In j (form_chans (pr_body0 pp)) \/ j ∈ refs (OMsg k m).
+Proof.
+  intros He Hgc Hdf Hfw Hnf. unfold on_message in He. fold (is_fwd_body pp) in He.
+  destruct (rule_eqb (m_rule m) RFWD && negb (is_fwd_body pp)) eqn:E1.
+  { apply andb_true_iff in E1 as [E1 _]. apply rule_eqb_eq in E1. injection He as <-.
+    eexists _, _. split; [reflexivity|]. cbn. split; [right; left; done|]. split; [done|]. intros j Hj. by left. }
+  destruct (rule_eqb (m_rule m) RGC && negb (is_fwd_body pp)) eqn:E2.
+  { apply andb_true_iff in E2 as [E2 _]. apply rule_eqb_eq in E2. contradiction. }
+  unfold is_fwd_body in Hfw.
+  destruct (pr_body0 pp) as [to pay cont|pay cont from k0|to l cont|from bs|x b k0|c0|c0 k0|to from d|x y from k0|fn args pt|to cont|x from k0|c0 k0|l k0] eqn:Eb;
+    try discriminate; simpl in Hnf.
+  - (* FRecv *)
+    destruct (is_self from); [destruct (rule_eqb (m_rule m) RRCV) eqn:Er|destruct (rule_eqb (m_rule m) RSND) eqn:Er]; try discriminate;
+      apply rule_eqb_eq in Er; injection He as <-; (eexists _, _; split; [reflexivity|]); cbn [pr_provs pr_body0 set_provs_body set_body];
+      (split; [eauto|]); (split; [by rewrite !nofd_subst|]); intros j Hj;
+      repeat (apply form_chans_subst in Hj as [Hj|Hj]); rewrite ?new_self_chans in Hj; try (by destruct Hj);
+      cbn [refs form_chans]; rewrite Er; rewrite ?in_app_iff; try (left; tauto); right; apply elem_In; simpl; rewrite ?in_app_iff; tauto.
+  - (* FCase *)
+    destruct (is_self from); [destruct (rule_eqb (m_rule m) RBRA) eqn:Er|destruct (rule_eqb (m_rule m) RSEL) eqn:Er]; try discriminate;
+      apply rule_eqb_eq in Er; destruct (find_branch (m_label m) bs) as [[pay K]|] eqn:Efb; try discriminate; injection He as <-;
+      (eexists _, _; split; [reflexivity|]); cbn [pr_provs pr_body0 set_provs_body set_body];
+      (split; [eauto|]); (split; [rewrite !nofd_subst; eapply nofd_find; eauto|]); intros j Hj;
+      repeat (apply form_chans_subst in Hj as [Hj|Hj]); rewrite ?new_self_chans in Hj; try (by destruct Hj);
+      cbn [refs form_chans]; rewrite Er; rewrite ?in_app_iff;
+      try (left; right; eapply find_branch_chans; eauto; fail); right; apply elem_In; simpl; rewrite ?in_app_iff; tauto.
+  - (* FWait *)
+    destruct (rule_eqb (m_rule m) RCLS); try discriminate. injection He as <-.
+    eexists _, _. split; [reflexivity|]. cbn. split; [eauto|]. split; [done|]. intros j Hj. left. rewrite in_app_iff. tauto.
+  - (* FFwd *)
+    destruct d; [discriminate|].
+    destruct (m_rule m) eqn:Er; try discriminate;
+      try (injection He as <-; (eexists _, _; split; [reflexivity|]); cbn [pr_provs pr_body0 set_provs_body set_body];
+           (split; [eauto|]); (split; [done|]); intros j Hj; cbn [refs form_chans] in *; rewrite ?Er; rewrite ?in_app_iff in *;
+           destruct Hj as [Hj|Hj]; [left; tauto|right; apply elem_In; rewrite ?in_app_iff; tauto]; fail).
+    + (* RCLS *) injection He as <-. eexists _, _. split; [reflexivity|]. cbn. split; [eauto|]. split; [done|]. intros j Hj. left. rewrite in_app_iff. tauto.
+    + (* RFWD *) exfalso. by apply Hfw.
+  - (* FShift *)
+    destruct (is_self from); [destruct (rule_eqb (m_rule m) RSHF) eqn:Er|destruct (rule_eqb (m_rule m) RCST) eqn:Er]; try discriminate;
+      apply rule_eqb_eq in Er; injection He as <-; (eexists _, _; split; [reflexivity|]); cbn [pr_provs pr_body0 set_provs_body set_body];
+      (split; [eauto|]); (split; [by rewrite !nofd_subst|]); intros j Hj;
+      repeat (apply form_chans_subst in Hj as [Hj|Hj]); rewrite ?new_self_chans in Hj; try (by destruct Hj);
+      cbn [refs form_chans]; rewrite Er; rewrite ?in_app_iff; try (left; tauto); right; apply elem_In; simpl; rewrite ?in_app_iff; tauto.
+Qed.
+
+Lemma recv_body pp k : action_of Async D pp = ARecv k -> is_fwd_body pp = false -> recv_form (pr_body0 pp).
+Proof.
+  intros Ha Hf. unfold action_of in Ha. unfold is_fwd_body in Hf.
+  destruct (pr_body0 pp) eqn:Eb; simpl; try done; simpl in Ha;
+    repeat match type of Ha with
+           | (if ?b then _ else _) = _ => destruct b eqn:?
+           | match ?x with _ => _ end = _ => destruct x eqn:?
+           end;
+    try discriminate;
+    try (unfold internal in Ha; destruct (multi pp); discriminate);
+    try (unfold send_on in Ha; destruct (multi pp); [discriminate|]; repeat match type of Ha with match ?x with _ => _ end = _ => destruct x end; discriminate).
+Qed.
+
+Lemma fwd_recv_chan pp to from d k : pr_body0 pp = FFwd to from d -> action_of Async D pp = ARecv k -> chan from = Some k.
+Proof.
+  intros Eb Ha. unfold action_of in Ha. rewrite Eb in Ha. simpl in Ha.
+  repeat match type of Ha with
+         | (if ?b then _ else _) = _ => destruct b eqn:?
+         | match ?x with _ => _ end = _ => destruct x eqn:?
+         end; try discriminate. by injection Ha as ->.
+Qed.
+
+Lemma put_none_objs c k st o : obj_in (put_msg c k st None) o -> obj_in c o.
+Proof.
+  destruct o as [q v|k' m']; cbn; [done|]. intros (st' & H & Hb). apply lookup_insert_Some in H as [[<- <-]|[_ H]]; [discriminate|].
+  by exists st'.
+Qed.
+
+Lemma invx_recv Δ c p pp k st m e :
+  cfg_typed D F teq Δ c -> Topo c -> LinCfg c -> ns_ok c -> ProvsOk c -> DropUnref c -> NoFd c ->
+  procs c !! p = Some pp -> action_of Async D pp = ARecv k ->
+  chans c !! k = Some st -> ch_buf st = Some m -> ch_closed st = false ->
+  on_message p pp m = EOk e -> Rest (apply_effect (put_msg c k st None) p pp e).
+Proof.
+  intros Hc Ht Hl Hns Hpv Hd Hnf Hp Ea Hk Hb Hcl He.
+  pose proof (ct_procs D F teq Δ c Hc p pp Hp) as Hpt. destruct Hpt as (s & rs & Hne & Hprovs & Hty).
+  pose proof (lc_procs c Hl p pp Hp) as Hlinp. pose proof (Hnf p pp Hp) as Hnfp. pose proof (proj1 Hpv p pp Hp) as Hndp.
+  pose proof (ct_msgs D F teq Δ c Hc k st m Hk Hb) as Hmt.
+  assert (Hmsg : obj_in c (OMsg k m)) by (exists st; done).
+  pose proof (typed_action D F teq Hteq HF Δ pp (ct_procs D F teq Δ c Hc p pp Hp)) as Hv. rewrite Ea in Hv.
+  inversion Hv as [|k' Hk' Hside Hrecv| |]; subst. destruct Hside as (T & HT & Hside).
+  pose proof Hmt as Hmt2. eapply msg_pol in Hmt2 as (T' & HT' & Hpol); eauto. rewrite HT in HT'. injection HT' as <-.
+  set (R := fun j => j ∈ form_chans (pr_body0 pp) \/ j ∈ refs (OMsg k m)).
+  assert (HR : forall j, R j -> exists o, obj_in c o /\ j ∈ refs o).
+  { intros j [Hj|Hj]; [exists (OProc p pp)|exists (OMsg k m)]; done. }
+  assert (HkΔ : forall a, (pr_next pp <= a)%nat -> Δ !! (p ++ [a]) = None).
+  { intros a Ha. apply (ct_fresh D F teq Δ c Hc p _ a [] Hp). lia. }
+  assert (Hdrop : forall cls ss cs p2, droppable_fwds p pp cls = (ss, cs, p2) ->
+            (forall cl j, In cl cls -> In j (name_chans cl) -> R j /\ is_Some (Δ !! j)) ->
+            forall s0, In s0 ss ->
+              affr None (sp_body s0) /\ NoDup (cids_of (sp_provs s0)) /\
+              (forall j, j ∈ form_chans (sp_body s0) -> R j \/ Δ !! j = None) /\
+              (nofd (sp_body s0) = true \/
+               (is_dfwd (sp_body s0) = true /\ length (sp_provs s0) = 1%nat /\ (forall j, j ∈ cids_of (sp_provs s0) -> Δ !! j = None) /\
+                old_only Δ (Eff Finish ss cs [] [])))).
+  { intros cls ss cs p2 Ed Hcls. rewrite droppable_fwds_eq in Ed. injection Ed as <- <- <-.
+    assert (Hchs : forall i cl j, cls !! i = Some cl -> j ∈ form_chans (sp_body (dspawn p (pr_next pp) i cl)) -> In j (name_chans cl)).
+    { intros i cl j _ Hj. cbn in Hj. unfold name_chans in Hj at 1. simpl in Hj. by apply elem_In. }
+    intros s0 Hs0. apply elem_In, elem_of_lookup_imap in Hs0 as (i & cl & -> & Hcli).
+    assert (Hin : In cl cls) by (apply elem_In; eapply elem_of_list_lookup_2; eauto).
+    split; [by apply affr_fwd_leaf|]. split; [cbn; repeat constructor; simpl; tauto|]. split.
+    - intros j Hj. left. eapply Hcls; eauto.
+    - right. split; [done|]. split; [done|]. split.
+      + intros j Hj. cbn in Hj. apply elem_of_list_singleton in Hj as ->. apply HkΔ. lia.
+      + split; [intros pp1 E; discriminate|]. intros s1 Hs1 j Hj. cbn [e_spawn] in Hs1.
+        apply elem_In, elem_of_lookup_imap in Hs1 as (i1 & cl1 & -> & Hcl1).
+        eapply Hcls; [apply elem_In; eapply elem_of_list_lookup_2; eauto|eapply Hchs; eauto]. }
+  destruct (is_dfwd (pr_body0 pp)) eqn:Edf.
+  - (* a droppable forward receives: the message is dropped *)
+    destruct (pr_body0 pp) as [| | | | | | |to from d| | | | | |] eqn:Eb; try discriminate. destruct d; [|discriminate].
+    pose proof (fwd_recv_chan pp to from true k Eb Ea) as Hfrom.
+    assert (Hkb : k ∈ form_chans (pr_body0 pp)) by (rewrite Eb; simpl; unfold name_chans at 2; rewrite Hfrom; set_solver).
+    assert (Hpos : is_pos_rule (m_rule m) = true).
+    { destruct (is_pos_rule (m_rule m)) eqn:E; [done|]. exfalso. destruct Hside as [[Hown _]|[_ Hp']].
+      - eapply (topo_ne c (OProc p pp) k k); eauto. cbn. by apply own_chan_provides.
+      - eapply (pol_unique D); eauto. }
+    pose proof Hmt as Hmt3. eapply pos_msg_refs in Hmt3 as [Hrefs Hprov]; eauto.
+    split.
+    + eapply (topo_dropfwd_recv D F teq Hteq Δ c p pp to from k st m e); eauto.
+      intros j o2 Hj Ho2. destruct (Hd p pp Hp) as [_ H]; [by rewrite Eb|]. by apply H.
+    + unfold on_message in He. rewrite Eb in He. cbn [negb] in He. rewrite !andb_false_r in He.
+      fold (carried m) in He. destruct (droppable_fwds p pp (carried m)) as [[ss cs] p2] eqn:Ed. injection He as <-.
+      apply (rest_of_effect Δ c (put_msg c k st None) p _ _ R); auto.
+      * apply put_none_objs.
+      * intros pp1 E. discriminate.
+      * apply (Hdrop (carried m) ss cs p2 Ed). intros cl j Hcli Hj.
+        assert (Hjr : j ∈ refs (OMsg k m)).
+        { rewrite <- Hrefs, <- carried_chans. apply elem_In. apply in_flat_map. eauto. }
+        split; [by right|]. eapply (obj_chans_typed D F teq Δ c (OMsg k m)); eauto.
+  - destruct (rule_eqb (m_rule m) RGC) eqn:Egc.
+    + (* a GC request *)
+      apply rule_eqb_eq in Egc. destruct (is_fwd_body pp) eqn:Ef.
+      { exfalso. unfold on_message in He. fold (is_fwd_body pp) in He. rewrite Ef, Egc in He. cbn [rule_eqb negb andb] in He.
+        unfold is_fwd_body in Ef. destruct (pr_body0 pp) as [| | | | | | |to from d| | | | | |]; try discriminate.
+        destruct d; discriminate. }
+      pose proof (recv_body pp k Ea Ef) as Hform.
+      assert (Hprov : cids_of (pr_provs pp) = [k]).
+      { destruct (recv_view_of D pp k Hne Ea) as [n Hn Hcn _|Hcl'].
+        - rewrite Hn. cbn. by rewrite Hcn.
+        - exfalso. assert (E : OProc p pp = OMsg k m); [|discriminate].
+          eapply (topo_ref_unique c Ht _ _ k); eauto; [cbn; by apply elem_In|cbn; rewrite Egc; set_solver]. }
+      split.
+      * eapply (topo_gc_recv D F teq Hteq Δ c p pp k st m e); eauto.
+      * unfold on_message in He. fold (is_fwd_body pp) in He. rewrite Ef, Egc in He. cbn [rule_eqb negb andb] in He.
+        destruct (droppable_fwds p pp (free_names (pr_body0 pp))) as [[ss cs] p2] eqn:Ed. injection He as <-.
+        apply (rest_of_effect Δ c (put_msg c k st None) p _ _ R); auto.
+        -- apply put_none_objs.
+        -- intros pp1 E. discriminate.
+        -- apply (Hdrop (free_names (pr_body0 pp)) ss cs p2 Ed). intros cl j Hcl' Hj.
+           assert (Hjb : In j (form_chans (pr_body0 pp))) by (eapply free_names_chans; eauto).
+           split; [left; by apply elem_In|]. exact (form_chans_typed D F teq Δ _ _ _ _ _ j Hty Hjb).
+    + (* the other messages *)
+      assert (Hgc : m_rule m <> RGC) by (intros E; rewrite E in Egc; discriminate).
+      assert (Hfwr : is_fwd_body pp = true -> m_rule m <> RFWD).
+      { intros Ef Hr. unfold is_fwd_body in Ef. destruct (pr_body0 pp) as [| | | | | | |to from d| | | | | |] eqn:Eb; try discriminate.
+        pose proof (fwd_recv_chan pp to from d k Eb Ea) as Hfrom.
+        destruct Hside as [[Hown _]|[_ Hpos]].
+        - destruct Hown as (n & Hn & Hcn). assert (E : OProc p pp = OMsg k m); [|discriminate].
+          eapply (topo_ref_unique c Ht _ _ k); eauto; [|cbn; rewrite Hr; set_solver].
+          cbn. rewrite Eb. simpl. unfold name_chans at 2. rewrite Hfrom. set_solver.
+        - rewrite Hr in Hpol. simpl in Hpol. eapply (pol_unique D); eauto. }
+      assert (Hcr : core_recv pp m).
+      { split; [done|]. destruct (pr_body0 pp) as [| | | | | | |to from d| | | | | |] eqn:Eb; try done.
+        split; [destruct d; [discriminate|done]|]. apply Hfwr. unfold is_fwd_body. by rewrite Eb. }
+      assert (Hnofd : nofd (pr_body0 pp) = true) by (unfold nofd_top in Hnfp; rewrite Edf in Hnfp; exact Hnfp).
+      destruct (lin_recv_step D F teq Hteq HF Δ c p pp k st m e Hc Ht Hl Hp Ea Hk Hb He Hcr) as (pp1 & cl & -> & Haf1).
+      destruct (on_message_facts p pp k m _ He Hgc Edf Hfwr Hnofd) as (pp1' & cl' & E & Hprovs1 & Hnofd1 & Hch1). injection E as <- <-.
+      split; [eapply (topo_recv_step D F teq Hteq HF c p pp k st m); eauto|].
+      apply (rest_of_effect Δ c (put_msg c k st None) p _ _ R); auto.
+      * apply put_none_objs.
+      * intros pp2 [= <-]. split; [exact Haf1|]. split.
+        { destruct Hprovs1 as [->|[[Hr ->]|[n ->]]]; [exact Hndp|exact (proj2 Hpv k st m Hk Hb Hr)|].
+          cbn. destruct (chan n); repeat constructor; simpl; tauto. }
+        split; [exact Hnofd1|]. intros j Hj. apply elem_In in Hj. left. destruct (Hch1 j Hj) as [H|H]; [left; by apply elem_In|by right].
+      * intros s0 [].
+Qed.
+
 Record InvX (c : config) : Prop := {
   ix_typed : exists Δ, cfg_typed D F teq Δ c;
   ix_topo : Topo c;
@@ -208,4 +692,25 @@ Record InvX (c : config) : Prop := {
   ix_drop : DropUnref c;
   ix_nofd : NoFd c
 }.
+
+Theorem invx_step_async c ch c' : InvX c -> step Async D F c ch = SStep c' -> InvX c'.
+Proof.
+  intros [[Δ Hc] Ht Hl Hns Hpv Hd Hnf] Hs.
+  assert (Hcu : closed_unused D Async c) by (intros self p0 k st; eapply topo_closed_unused; eauto).
+  destruct (preservation_md D F teq Hteq HF Async Δ c ch c' eq_refl Hc Hcu Hs) as (Δ' & _ & Hc').
+  pose proof (ns_ok_step _ _ _ _ _ _ Hns Hs) as Hns'.
+  assert (Hgoal : Rest c'); [|destruct Hgoal as (H1 & H2 & H3 & H4 & H5); split; eauto].
+  clear Hc' Hns' Δ'.
+  destruct ch as [p|s0 r0|f0 t0]; [|by cbn in Hs|by cbn in Hs]. cbn [step] in Hs.
+  destruct (procs c !! p) as [pp|] eqn:Hp; [|done].
+  destruct (action_of Async D pp) as [| |k m|k| |k pv|w] eqn:Ea; try done.
+  - destruct (dup_effect p pp) as [e|] eqn:He; [|done]. cbn [eff_step] in Hs. injection Hs as <-. eapply invx_dup; eauto.
+  - destruct (internal_effect Async F p pp) as [e|] eqn:He; [|done]. cbn [eff_step] in Hs. injection Hs as <-. eapply invx_internal; eauto.
+  - destruct (chans c !! k) as [st|] eqn:Hk; [|done]. destruct (ch_closed st) eqn:Hcl; [done|].
+    destruct (ch_buf st) eqn:Hb; [done|]. injection Hs as <-. eapply invx_send; eauto.
+  - destruct (chans c !! k) as [st|] eqn:Hk; [|done].
+    assert (Hcl : ch_closed st = false) by (eapply Hcu; eauto).
+    destruct (ch_buf st) as [m|] eqn:Hb; [|by rewrite Hcl in Hs].
+    destruct (on_message p pp m) as [e|] eqn:He; [|done]. cbn [eff_step] in Hs. injection Hs as <-. eapply invx_recv; eauto.
+Qed.
 End All.
